@@ -397,3 +397,54 @@ def wire_harness(prop, tier, seed, cov, log):
     cov['wire_scenarios'] = {k: {'runs': v[0], 'ok': v[1]} for k, v in sorted(runs.items())}
     cov['wire_runs'] = sum(v[0] for v in runs.values())
     return viol
+
+
+# ------------------------------------------------------------------ C09: real threads under the race detector
+
+def race_harness(prop, tier, seed, cov, log):
+    """C09: 4-16 well-behaved clients work concurrently in shared sessions of the real server (all modules, production
+    decorators, real sockets), built with -race: no race report may involve a hagall package, every request must
+    complete (watchdog), and the server must come back to rest."""
+    import concurrent.futures as cf
+    n = 3 if tier == 'quick' else 48
+    per = 1 if tier == 'quick' else 4
+    jobs = [(seed * 1000 + k, min(per, n - k)) for k in range(0, n, per)]
+    def run(job):
+        sd, cnt = job
+        try:
+            r = subprocess.run([f'{L.BIN}/wire-race', '-scenario', 'concurrent', '-seed', str(sd), '-n', str(cnt)], capture_output=True,
+                               text=True, env=dict(L.GOENV, GORACE='halt_on_error=0'), timeout=120 + 60 * cnt)
+            return job, r.returncode, r.stdout, r.stderr
+        except subprocess.TimeoutExpired:
+            return job, -9, '', 'timeout'
+    viol = []; seen = set(); known = L.load_known(prop)
+    runs = ok = races = 0
+    def report(cause, job, detail):
+        if cause in seen: return
+        seen.add(cause)
+        k = [e for e in known if e['cause'] == cause]
+        if k:
+            print(f'KNOWN-FINDING: property={prop} {k[0]["what"]} [{cause}]'); return
+        path = L.write_replay(prop, cause, {'property': prop, 'cause': cause, 'seed': seed, 'tier': tier,
+                              'replay': f'GORACE=halt_on_error=0 .cache/bin/wire-race -scenario concurrent -seed {job[0]} -n {job[1]}'}, [detail[:6000]])
+        viol.append((path, ''))
+    with cf.ThreadPoolExecutor(max_workers=4) as ex:
+        for job, rc, out, err in ex.map(run, jobs):
+            lines = [l for l in out.split('\n') if l.startswith('W ')]
+            runs += len(lines); ok += sum(1 for l in lines if l.endswith(' ok'))
+            for b in err.split('=================='):
+                if 'WARNING: DATA RACE' in b and 'aukilabs/hagall' in b:
+                    races += 1
+                    frames = re.findall(r'^\s+(github\.com/aukilabs/hagall[^\s]*)\(\)', b, re.M)
+                    cause = 'data-race'
+                    report(cause, job, 'first hagall frames: ' + ' / '.join(dict.fromkeys(frames[:4])) + '\n' + b.strip())
+            bad = [l for l in lines if ' VIOLATION ' in l]
+            if bad:
+                m = re.search(r'VIOLATION (\S+) :: (.*)', bad[0])
+                report(m.group(1), job, bad[0])
+            elif rc not in (0, 66) or len(lines) < job[1]:
+                report('server-process-died', job, f'exit code {rc}; ' + err[-3000:])
+    cov['race_runs'] = runs
+    cov['race_runs_ok'] = ok
+    cov['race_reports_in_hagall'] = races
+    return viol
